@@ -164,20 +164,23 @@ HeadAvail(c) ==
   CASE c.t[1] = "do" -> Ran(c.t[2]) \cup TransformDefs(c)
     [] OTHER -> BodyVars(c) \cup TransformDefs(c)
 
-\* statement i of a let-transform may use body variables and earlier let variables, and
-\* must not redefine a body variable
-LetOK(c) ==
-  \A i \in DOMAIN c.t[2] :
-     /\ TermVars(c.t[2][i][2]) \subseteq BodyVars(c) \cup {c.t[2][j][1] : j \in 1..(i - 1)}
-     /\ c.t[2][i][1] \notin BodyVars(c)
 IsReducer(f) == f \in {"fn:count", "fn:sum", "fn:max", "fn:min", "fn:avg", "fn:count_distinct",
                        "fn:collect_distinct", "fn:collect", "fn:pick_any"}
+\* statement i of a let-transform may use body variables and earlier let variables
+LetOK(c) ==
+  \A i \in DOMAIN c.t[2] :
+     TermVars(c.t[2][i][2]) \subseteq BodyVars(c) \cup {c.t[2][j][1] : j \in 1..(i - 1)}
+\* A transform that defines a variable which also occurs in the body has no documented meaning
+\* (is the body occurrence the transform's value or a different variable?): such clauses are
+\* classified, not judged.
+Ambiguous(c) ==
+  \/ TransformDefs(c) \cap BodyVars(c) # {}
+  \/ c.t[1] = "do" /\ \E i \in DOMAIN c.t[3] : IsReducer(c.t[3][i][2]) /\ ~(SeqVars(c.t[3][i][3]) \subseteq BodyVars(c))
 \* a reducer folds body variables; any other statement may use the key and earlier definitions
 DoOK(c) ==
   /\ Ran(c.t[2]) \subseteq BodyVars(c)
   /\ \A i \in DOMAIN c.t[3] :
-       /\ c.t[3][i][1] \notin BodyVars(c)
-       /\ IF IsReducer(c.t[3][i][2]) THEN SeqVars(c.t[3][i][3]) \subseteq BodyVars(c)
+       /\ IF IsReducer(c.t[3][i][2]) THEN TRUE   \* (a reducer over a non-body variable: see Ambiguous)
           ELSE SeqVars(c.t[3][i][3]) \subseteq Ran(c.t[2]) \cup {c.t[3][j][1] : j \in 1..(i - 1)}
 
 \* Safety: the scheduler never gets stuck and every head variable receives a value.
